@@ -87,11 +87,9 @@ Assignments(e, spe, A, R) == LET F == Free(e, spe, A, R) IN
 \* what has been seen of the shuffle of (epoch, validator set): pairs "w comes before l"
 Rel(e, D) == {<<x[3], x[4]>> : x \in {y \in sord : y[1] = e /\ y[2] = D}}
 Learn(e, spe, A, R, w) == UNION {{<<e, DOMAIN A, w[s], l>> : l \in Cand(e, spe, A, R, s) \ {w[s]}} : s \in DOMAIN w}
-TC(R) == LET N == {r[1] : r \in R} \cup {r[2] : r \in R}
-             Step(X) == X \cup {p \in N \X N : \E b \in N : <<p[1], b>> \in X /\ <<b, p[2]>> \in X}
-             F[i \in 0..Cardinality(N)] == IF i = 0 THEN R ELSE Step(F[i - 1])
-         IN F[Cardinality(N)]
-Acyclic(R) == \A p \in TC(R) : p[1] # p[2]
+\* a relation is acyclic iff every non-empty set of its nodes has a member without a predecessor in the set
+Acyclic(R) == LET N == {r[1] : r \in R} \cup {r[2] : r \in R} IN
+                \A S \in SUBSET N : S = {} \/ \E v \in S : \A u \in S : <<u, v>> \notin R
 OrderOK(e, spe, A, R, w) == DevOrder \/ Acyclic(Rel(e, DOMAIN A) \cup {<<x[3], x[4]>> : x \in Learn(e, spe, A, R, w)})
 
 \* the duties as handed out: the real ones as the beacon node listed them, then the synthetic ones (order: the shuffle's)
